@@ -236,8 +236,9 @@ def explore(h, max_states=200000, seed=0, max_wall=None, check_key_soundness=Tru
         if determinism_checks > 0 and len(choices) >= 3:
             # replay determinism: the same schedule must produce the same state keys (twice)
             determinism_checks -= 1
-            k1 = key_trace(h, choices, repo)
-            k2 = key_trace(h, choices, repo)
+            # (the first 1200 steps: key computation grows with the queues of the very long single-schedule runs)
+            k1 = key_trace(h, choices[:1200], repo)
+            k2 = key_trace(h, choices[:1200], repo)
             res.counters["determinism_replays"] = res.counters.get("determinism_replays", 0) + 2
             if k1 != k2:
                 raise vmp.VmpError("NONDETERMINISM: the same schedule produced different state keys (%s)" % h.name)
